@@ -152,6 +152,44 @@ ORDERS = [
 ]
 VEL_DEP = (1, 4)
 
+# every way the external program can end by itself with a failure: an exit status, or death by a
+# signal the engine did not send (Popen.returncode is then NEGATIVE: -9 SIGKILL from the OOM
+# killer / a batch system, -11 SIGSEGV, -15 a SIGTERM from somebody else).  "exit_code" stays the
+# conventional 128 + N (what a shell launcher passes on); "exit_signal" makes the fake program
+# kill itself with that signal instead of exiting.
+DEATHS = [
+    ("exit-1", {"exit_code": 1}),
+    ("exit-2", {"exit_code": 2}),
+    ("SIGKILL", {"exit_code": 137, "exit_signal": 9}),
+    ("SIGSEGV", {"exit_code": 139, "exit_signal": 11}),
+    ("SIGTERM-not-from-infretis", {"exit_code": 143, "exit_signal": 15}),
+]
+DEATH_KW = [d for _, d in DEATHS]
+
+
+def death_label(case):
+    sig = case.get("exit_signal")
+    if sig:
+        return {9: "SIGKILL", 11: "SIGSEGV", 15: "SIGTERM-not-from-infretis"}.get(sig, f"signal-{sig}")
+    return f"exit-{case.get('exit_code', 0)}"
+
+
+def death_stage(case):
+    if case.get("die_before_output") or (not case.get("schedule") and not case.get("frames")):
+        return "before-any-output"
+    if not case.get("write_rest", True):
+        return "mid-frame"
+    return "after-k-complete-frames"
+
+
+def death_text(H, case):
+    sig = case.get("exit_signal")
+    rc = H.return_code(case)
+    if sig:
+        via = " (behind the launcher: exit status 128+N of the shell)" if case.get("launcher") else ""
+        return f"was killed by signal {sig} ({death_label(case)}; return code {rc} as the engine's poll() sees it{via})"
+    return f"exited with code {rc}"
+
 
 def vel_dependent(order):
     return order["class"] == "Velocity" or (order["class"] == "LinOrder" and order.get("wv", 0.0) != 0.0)
@@ -300,11 +338,28 @@ def gen_external(H, engine, rng, tier, wdroot):
         kc = rng.choice([None, 1, 2, 3, 4])
         w = rng.randrange(0, ml + 2)
         sched = [[min(x, 2 * w) for x in e] for e in random_schedule(rng, ml + 1, nstream)]
-        finish(c, kc, ml, sched, frames=w, exit_code=rng.choice([1, 2, 134]))
-    c = base_case(engine, rng)
-    c["order"] = ORDERS[0]
-    mkbox(c, False, False)
-    finish(c, None, 3, [], die_before_output=True, exit_code=1, frames=0)
+        finish(c, kc, ml, sched, frames=w, **(DEATH_KW[i % len(DEATH_KW)] if i % 6 else {"exit_code": 134}))
+    # ---- EVERY way of dying (exit status 1 / 2, killed by SIGKILL / SIGSEGV / a SIGTERM the engine
+    #      did not send) x EVERY stage (before any output / after k complete frames, k = 0.. / in
+    #      the middle of frame k): without a stop among the complete frames propagate must RAISE
+    #      (oracle), never return a path that neither crossed an interface nor reached the limit
+    for di, (_dname, death) in enumerate(DEATHS):
+        c = base_case(engine, rng, nat=(12 if engine == "gromacs" and di % 2 else 2))
+        c["order"] = ORDERS[di % 3]
+        mkbox(c, di % 2 == 0, False)
+        ml = 4
+        finish(c, None, ml, [], die_before_output=True, frames=0, **death)
+        for k in range(0, ml + 2):
+            for sched in ([[2 * j] * nstream for j in range(1, k + 1)], [[2 * k] * nstream]):
+                finish(c, None, ml, sched, frames=k, **death)
+                if k < 2:
+                    break           # both schedules are the same
+        finish(c, 1, ml, [[2] * nstream, [6] * nstream], frames=3, **death)       # a crossing before the death
+        for k in range(0, 3):
+            tails = [[2 * k + 1] * nstream] + ([[2 * k + 1, 2 * k], [2 * k, 2 * k + 1]] if nstream == 2 else [])
+            for ti, tail in enumerate(tails):
+                pre = [[2 * j] * nstream for j in range(1, k + 1)] if ti % 2 == 0 else []
+                finish(c, None, ml, pre + [tail], write_rest=False, cut=("midline" if (k + ti) % 2 else "line"), **death)
     # ---- crash in the middle of writing a frame: the torn frame stays on disk
     if True:
         for i in range(nfail // 2):
@@ -314,8 +369,8 @@ def gen_external(H, engine, rng, tier, wdroot):
             ml = rng.randrange(2, 6)
             sched = random_schedule(rng, ml + 1, nstream) or [[1] * nstream]
             sched.append([min(2 * ml + 1, x + 1 + 2 * rng.randrange(0, 2)) | 1 for x in sched[-1]])
-            finish(c, rng.choice([None, 1, 2, 3]), ml, sched, write_rest=False, exit_code=rng.choice([1, 139]),
-                   cut=rng.choice(["line", "midline"]))
+            finish(c, rng.choice([None, 1, 2, 3]), ml, sched, write_rest=False, cut=rng.choice(["line", "midline"]),
+                   **DEATH_KW[i % len(DEATH_KW)])
     # ---- seeded random
     nrand = 300 if tier == "quick" else 4000
     for i in range(nrand):
@@ -362,11 +417,13 @@ def gen_external(H, engine, rng, tier, wdroot):
         ml = rng.randrange(2, 6)
         w = rng.randrange(0, ml + 2)
         sched = [[min(x, 2 * w) for x in e] for e in random_schedule(rng, ml + 1, nstream)]
-        finish(c, rng.choice([None, 1, 2, 3, 4]), ml, sched, frames=w, exit_code=rng.choice([1, 2, 134]), launcher=kind())
-    c = base_case(engine, rng)
-    c["order"] = ORDERS[0]
-    mkbox(c, False, False)
-    finish(c, None, 3, [], die_before_output=True, exit_code=1, frames=0, launcher=kind())
+        finish(c, rng.choice([None, 1, 2, 3, 4]), ml, sched, frames=w, launcher=kind(), **DEATH_KW[i % len(DEATH_KW)])
+    for di, (_dname, death) in enumerate(DEATHS):       # ... and dies before any output / in the middle of a frame
+        c = base_case(engine, rng)
+        c["order"] = ORDERS[di % 3]
+        mkbox(c, False, False)
+        finish(c, None, 3, [], die_before_output=True, frames=0, launcher=kind(), **death)
+        finish(c, None, 3, [[2] * nstream, [3] * nstream], write_rest=False, launcher=kind(), **death)
     # free-running program behind a launcher with a LONG run ahead of it (one frame per 50 ms,
     # 120 frames) and an early crossing: if the engine stops only the launcher, the program is
     # still computing and writing into the exe directory long after propagate has returned
@@ -558,7 +615,7 @@ def oracle(H, case, res, own, frames):
         if own[k] < left or own[k] > right or k + 1 == case["maxlen"]:
             stop_at = k
             break
-    failed = case.get("exit_code", 0) != 0
+    failed = H.return_code(case) != 0 if eng in H.EXTERNAL else False
     if obs["children_alive"]:
         errs.append((None, f"child processes still alive after propagate returned: {obs['children_alive']}"))
     if obs.get("program_alive"):
@@ -573,7 +630,7 @@ def oracle(H, case, res, own, frames):
         errs.append((None, f"files in the exe directory still change after propagate ended: {obs['still_writing']}"))
     if obs.get("hang"):
         cls = "L14" if (eng == "gromacs" and not case.get("write_rest", True)) else None
-        errs.append((cls, f"the program ended with code {case.get('exit_code', 0)} leaving an incomplete frame and propagate never "
+        errs.append((cls, f"the program {death_text(H, case)} leaving an incomplete frame and propagate never "
                           f"returns ({obs['raised']})"))
         return errs
     if obs["raised"] is not None:
@@ -582,8 +639,10 @@ def oracle(H, case, res, own, frames):
         return errs
     if stop_at is None:
         if failed:
-            errs.append((None, f"program exited with code {case['exit_code']} after {nw} frames without reaching a stop, "
-                               f"but propagate returned normally with {len(fr)} frames (silently truncated path)"))
+            errs.append((None, f"engine failure does not raise: the program {death_text(H, case)} after {nw} complete frame(s) "
+                               f"[{death_stage(case)}] without reaching a stop, but propagate returned normally (success={obs['success']}, "
+                               f"status {obs['status']!r}) with {len(fr)} frame(s) although the length limit is {case['maxlen']} and no "
+                               f"frame is outside the interfaces {case['interfaces']} (silently truncated path)"))
         elif eng not in H.EXTERNAL:
             errs.append((None, "harness: no stop expected (ill-formed case)"))
         return errs
@@ -740,6 +799,8 @@ def evaluate(ctx, runner, H, I, cases, results):
             ctx.dist(f"{eng}:start-file={start_file(case)}")
         if eng in H.EXTERNAL:
             ctx.dist(f"{eng}:command={'launcher-' + case['launcher'] if case.get('launcher') else 'program'}")
+            if H.return_code(case) != 0:
+                ctx.dist(f"{eng}:death={death_label(case)}@{death_stage(case)}")
         if tag != "ok":
             ctx.violation(f"harness failure running a {eng} case: {str(res)[:300]}", {"case": case, "error": str(res)[-2000:]}, False)
             continue
